@@ -149,10 +149,7 @@ def carveL (hdr : Option Str) (cte : List Key) : List Item → Bool
   | .notRef _ _ _ :: _ => false
 
 /-- the CTE registry the code builds for this statement -/
-def cteOf (hdr : Option Str) (s : List Tok) : List Key :=
-  match hdr with
-  | none => cteScan 0 s
-  | some _ => if spAfter "with" s then cteScan 0 s else []
+def cteOf (_hdr : Option Str) (s : List Tok) : List Key := cteScan 0 s
 
 def Carve (hdr : Option Str) (q : List Item) : Bool := carveL hdr (cteOf hdr (flat q)) q
 
